@@ -187,10 +187,14 @@ def from_script(s):
 
 def first_difference(a, b):
     n = min(len(a), len(b))
-    for i in range(n):
-        if a[i] != b[i]:
-            return i
-    return n if len(a) != len(b) else -1
+    if a[:n] == b[:n]:
+        return n if len(a) != len(b) else -1
+    lo, hi = 0, n - 1            # smallest i with a[:i+1] != b[:i+1]
+    while lo < hi:
+        mid = (lo + hi) // 2
+        if a[:mid + 1] == b[:mid + 1]: lo = mid + 1
+        else: hi = mid
+    return lo
 
 
 def locate(b, offset):
